@@ -440,8 +440,10 @@ theorem execOp_step (hS : StableK I) {f : Nat} (ih : PresAll I f) :
       cases h; exact ihEmit _ _ _ _ _ _ _ _ hI heq
   · cases h; exact hI
   · split at h
-    · rename_i heq; cases h; exact hS.simple _ _ _ _ _ hI heq
     · cases h; exact hI
+    · split at h
+      · rename_i heq; cases h; exact hS.simple _ _ _ _ _ hI heq
+      · cases h; exact hI
 
 theorem presAll_zero : PresAll I 0 := by
   refine ⟨?_, ?_, ?_, ?_, ?_, ?_, ?_, ?_, ?_, ?_, ?_⟩
@@ -614,6 +616,35 @@ theorem Stable.toK {I : St → Prop} (h : Stable I) : StableK (fun (_ : Unit) =>
   collect _ s hI := h.collect s trivial hI
   emit _ s i im hI hi := ⟨(), h.pro s i im trivial hI hi, fun s2 h2 => h.emitEpi s2 i s.next h2⟩
   forceDel _ s g hI := h.forceDel s g trivial hI
+
+/-- the indexed schema relative to an established unary invariant `J` -/
+structure StableKRel {κ : Type} (J : St → Prop) (I : κ → St → Prop) : Prop where
+  log : ∀ k s e, J s → I k s → I k (s.log e)
+  fail : ∀ k s m, J s → I k s → I k (s.fail m)
+  depth : ∀ k (s : St) d, J s → I k s → I k { s with depth := d }
+  steps : ∀ k (s : St) n, J s → I k s → I k { s with steps := n }
+  incall : ∀ k (s : St) i (v : SlotVar) n, J s → I k s → aget s.S i = some v →
+    I k { s with S := aset s.S i { v with incall := n } }
+  simple : ∀ k s op s' r, J s → I k s → stepSimple s op = some (s', r) → I k s'
+  collect : ∀ k s, J s → I k s → I k (collect s)
+  emit : ∀ k s i im, J s → I k s → aget s.impls i = some im →
+    ∃ k', I k' (emitPro s i im) ∧ ∀ s2, J s2 → I k' s2 → I k (emitEpi s2 i s.next)
+  forceDel : ∀ k s g, J s → I k s → I k (forceDelG s g)
+
+theorem StableKRel.and {κ : Type} {J : St → Prop} {I : κ → St → Prop} (hJ : Stable J) (hI : StableKRel J I) :
+    StableK (fun k s => J s ∧ I k s) where
+  log k s e h := ⟨hJ.log s e trivial h.1, hI.log k s e h.1 h.2⟩
+  fail k s m h := ⟨hJ.fail s m trivial h.1, hI.fail k s m h.1 h.2⟩
+  depth k s d h := ⟨hJ.depth s d trivial h.1, hI.depth k s d h.1 h.2⟩
+  steps k s n h := ⟨hJ.steps s n trivial h.1, hI.steps k s n h.1 h.2⟩
+  incall k s i v n h hv := ⟨hJ.incall s i v n trivial h.1 hv, hI.incall k s i v n h.1 h.2 hv⟩
+  simple k s op s' r h hs := ⟨hJ.simple s op s' r trivial h.1 hs, hI.simple k s op s' r h.1 h.2 hs⟩
+  collect k s h := ⟨hJ.collect s trivial h.1, hI.collect k s h.1 h.2⟩
+  emit k s i im h hi := by
+    obtain ⟨k', hp, he⟩ := hI.emit k s i im h.1 h.2 hi
+    exact ⟨k', ⟨hJ.pro s i im trivial h.1 hi, hp⟩,
+      fun s2 h2 => ⟨hJ.emitEpi s2 i s.next h2.1, he s2 h2.1 h2.2⟩⟩
+  forceDel k s g h := ⟨hJ.forceDel s g trivial h.1, hI.forceDel k s g h.1 h.2⟩
 
 /-- every terminating run of every program ends in a state satisfying a stable predicate that holds
     initially -/
